@@ -488,4 +488,38 @@ def validResponses : Nat → Bytes → List Nat → Option (List Nat)
       | some (st, rest) =>
         if rest.length < bs.length then validResponses fuel rest (st :: acc) else none
 
+
+/-! ## HTTP/2 connections
+
+A client that starts with the HTTP/2 preface is served by hyper's HTTP/2 code (the
+server builder detects the protocol).  What the server sends on such a connection is a
+sequence of frames (RFC 9113 section 4.1: 24-bit payload length, type, flags, reserved bit
++ 31-bit stream id, payload), the first of which is its SETTINGS frame (section 3.4). -/
+
+/-- The frames in `bs` as (type, first payload byte or 256); `none` if `bs` is not a
+sequence of complete frames. -/
+def h2Frames : Nat → Bytes → List (Nat × Nat) → Option (List (Nat × Nat))
+  | 0, _, _ => none
+  | fuel + 1, bs, acc =>
+    match bs with
+    | [] => some acc.reverse
+    | l0 :: l1 :: l2 :: ty :: _fl :: s0 :: _s1 :: _s2 :: _s3 :: rest =>
+      let len := l0.toNat * 65536 + l1.toNat * 256 + l2.toNat
+      if s0.toNat ≥ 128 then none
+      else if rest.length < len then none
+      else h2Frames fuel (rest.drop len) ((ty.toNat, if len > 0 then (rest.head?.map (·.toNat)).getD 256 else 256) :: acc)
+    | _ => none
+
+/-- What a server may send on an HTTP/2 connection: nothing, or its SETTINGS frame (type 4)
+followed by complete frames. -/
+def validH2 (recv : Bytes) : Option (List (Nat × Nat)) :=
+  match h2Frames (recv.length + 1) recv [] with
+  | some [] => some []
+  | some ((4, b) :: fs) => some ((4, b) :: fs)
+  | _ => none
+
+/-- The client connection preface (RFC 9113 section 3.4). -/
+def h2Preface : Bytes :=
+  [80, 82, 73, 32, 42, 32, 72, 84, 84, 80, 47, 50, 46, 48, 13, 10, 13, 10, 83, 77, 13, 10, 13, 10]
+
 end Dropshot.Isolation
